@@ -352,16 +352,13 @@ func runC13(c *Ctx) {
 	n := scale(c, 400, 10000)
 	var dp plenc.Plenc
 	dp.RegisterDefaultCodecs()
-	for i := 0; i < n; i++ {
-		cfg := randCfg(c)
-		cfg.WithJSON = c.rng.Chance(10)
-		tc := pickType(c, cfg, 1+c.rng.Intn(3))
+	walkType := func(tc *TypeCase, fixed []reflect.Value) {
 		if tc.Rec {
-			continue
+			return
 		}
 		cd, err := tc.P.CodecForType(tc.T)
 		if err != nil {
-			continue
+			return
 		}
 		d := cd.Descriptor()
 		// the two restored descriptors
@@ -376,8 +373,17 @@ func runC13(c *Ctx) {
 				c.native = append(c.native, NativeViolation{Case: fmt.Sprint(tc.T), What: "descriptor does not round-trip through encoding/json: " + err.Error(), Class: "descriptor-restore"})
 			}
 		}
-		for j := 0; j < 3; j++ {
-			v := vg.Value(tc.T, 3)
+		nv := 3
+		if fixed != nil {
+			nv = len(fixed)
+		}
+		for j := 0; j < nv; j++ {
+			var v reflect.Value
+			if fixed != nil {
+				v = fixed[j]
+			} else {
+				v = vg.Value(tc.T, 3)
+			}
 			data, err := tc.P.Marshal(nil, v.Addr().Interface())
 			if err != nil {
 				continue
@@ -463,7 +469,16 @@ func runC13(c *Ctx) {
 			}
 			want, ok := valueImage(typed.Elem(), descName)
 			if !ok {
+				// no image to compare with (JSON-any content, ...): the text must still be valid JSON
 				c.count("image_not_comparable")
+				var jo plenccodec.JSONOutput
+				if r.err == nil && known == "" && !hasNonFinite(typed.Elem(), 0) && d.Read(&jo, data) == nil {
+					text := jo.Done()
+					if !json.Valid(text) {
+						c.native = append(c.native, NativeViolation{Case: desc, What: fmt.Sprintf("walk output is not valid JSON: %q", trunc(string(text), 200)), Class: "walk-invalid-json"})
+					}
+					c.count("validity_checked_only")
+				}
 				continue
 			}
 			if r.err != nil {
@@ -488,6 +503,69 @@ func runC13(c *Ctx) {
 			c.count("image_compared")
 		}
 	}
+	for i := 0; i < n; i++ {
+		cfg := randCfg(c)
+		cfg.WithJSON = c.rng.Chance(10)
+		walkType(pickType(c, cfg, 1+c.rng.Intn(3)), nil)
+	}
+	// every byte value inside strings, byte slices, map keys and JSON-any content
+	var fixed []reflect.Value
+	for b := 0; b < 256; b++ {
+		if c.Tier != "thorough" && b >= 0x20 && b != 0x22 && b != 0x5c && b != 0x7f && b < 0xc0 && c.rng.Chance(85) {
+			continue
+		}
+		ch := string([]byte{byte(b)})
+		v := reflect.New(reflect.TypeOf(C13Strings{})).Elem()
+		v.Set(reflect.ValueOf(C13Strings{S: "a" + ch + "z", B: []byte("b" + ch), M: map[string]string{ch: "v" + ch}, L: []string{ch, "", ch + ch},
+			K: map[string]int{"k" + ch: b}, P: &ch, J: map[string]any{"j" + ch: ch, "arr": []any{ch, nil, float64(b)}}}))
+		fixed = append(fixed, v)
+	}
+	walkType(newTypeCase(reflect.TypeOf(C13Strings{}), Cfg{WithJSON: true}), fixed)
+}
+
+// hasNonFinite: NaN or an infinity anywhere in the value (the property is about finite floats)
+func hasNonFinite(v reflect.Value, depth int) bool {
+	if depth > 12 {
+		return false
+	}
+	switch v.Kind() {
+	case reflect.Float32, reflect.Float64:
+		f := v.Float()
+		return f != f || f > 1.7976931348623157e308 || f < -1.7976931348623157e308
+	case reflect.Ptr, reflect.Interface:
+		return !v.IsNil() && hasNonFinite(v.Elem(), depth+1)
+	case reflect.Slice, reflect.Array:
+		for i := 0; i < v.Len(); i++ {
+			if hasNonFinite(v.Index(i), depth+1) {
+				return true
+			}
+		}
+	case reflect.Map:
+		it := v.MapRange()
+		for it.Next() {
+			if hasNonFinite(it.Key(), depth+1) || hasNonFinite(it.Value(), depth+1) {
+				return true
+			}
+		}
+	case reflect.Struct:
+		for i := 0; i < v.NumField(); i++ {
+			if hasNonFinite(v.Field(i), depth+1) {
+				return true
+			}
+		}
+	}
+	return false
+}
+
+// C13Strings: every place a string reaches the JSON outputter from
+type C13Strings struct {
+	S string            `plenc:"1"`
+	B []byte            `plenc:"2"`
+	M map[string]string `plenc:"3"`
+	L []string          `plenc:"4"`
+	K map[string]int    `plenc:"5"`
+	P *string           `plenc:"6"`
+	J map[string]any    `plenc:"7"`
 }
 
 func orDefault(a, b string) string {
